@@ -33,6 +33,7 @@
 #include "wkdibe/api.hpp"
 
 #include <stdint.h>
+#include <string.h>
 
 #include "bls12_381/curve.hpp"
 #include "bls12_381/pairing.hpp"
@@ -244,7 +245,8 @@ namespace embedded_pairing::wkdibe {
     template <bool compressed>
     struct FreeSlotMarshalled {
         Encoding<G1Affine, compressed> hexp;
-        uint32_t idx;
+        /* Big-endian slot index. A byte array, so that this struct can be overlaid at any buffer offset. */
+        uint8_t idx[sizeof(uint32_t)];
     };
 
     template <bool compressed>
@@ -255,7 +257,8 @@ namespace embedded_pairing::wkdibe {
         hexpaffine.from_projective(this->hexp);
         encoded->hexp.encode(hexpaffine);
 
-        encoded->idx = uint32_swap_endianness(this->idx);
+        uint32_t idx_be = uint32_swap_endianness(this->idx);
+        memcpy(encoded->idx, &idx_be, sizeof(idx_be));
     }
 
     template <bool compressed>
@@ -268,7 +271,9 @@ namespace embedded_pairing::wkdibe {
         }
         this->hexp.from_affine(hexpaffine);
 
-        this->idx = uint32_swap_endianness(encoded->idx);
+        uint32_t idx_be;
+        memcpy(&idx_be, encoded->idx, sizeof(idx_be));
+        this->idx = uint32_swap_endianness(idx_be);
         return true;
     }
 
